@@ -123,11 +123,14 @@ func checkOne(p, p386 *Program, pd *propDef, tier string, seed int, verbose bool
 	}()
 	t1 := time.Now()
 	var results []*RuleResult
+	setWordBits(p.Arch)
 	for _, rf := range pd.Rules {
 		results = append(results, rf(p))
 	}
 	extra := map[string]any{}
 	if p386 != nil {
+		setWordBits(p386.Arch)
+		defer setWordBits(p.Arch)
 		// second architecture: same rules; obligations are merged under an
 		// "@386" suffix so both passes must hold.
 		for _, rf := range pd.Rules {
